@@ -28,7 +28,7 @@
    matcher's contract (C09). *)
 From Coq Require Import List Arith Bool ZArith QArith.
 Import ListNotations.
-From SV Require Import C09.Tracker C09.Lemmas C09.TrackerX C09.LemmasX C09.LemmasR C10.Scene C10.Lemmas C10.LemmasR.
+From SV Require Import C09.Tracker C09.Lemmas C09.TrackerX C09.LemmasX C09.LemmasR C10.Scene C10.Lemmas C10.LemmasR C10.Geometry.
 Close Scope Q_scope.
 Open Scope nat_scope.
 
@@ -360,3 +360,297 @@ Example ex_two_animals_widened :
   xrun X h = [Ok [(1, Some 0)]; Ok [(1, Some 0); (2, Some 1)]; Ok [(2, Some 1); (1, Some 0)]]
   /\ forallb (fun x => negb (sel_cap X (t_state x) (t_frame x))) (trace (base X) init h) = true.
 Proof. vm_compute. auto. Qed.
+
+(* --- round 6: "far apart compared with the motion" => dominance, PROVED for
+   features = bboxes, scoring_method = iou (C10/Geometry.v) ------------------ *)
+
+(* compute_iou over Q, exactly as utils.py computes it (max / min / +1 / one
+   division); the reduction over a track's candidates (np.nanmean / np.nanmax,
+   no candidate -> NaN) and the score matrix of Tracker.get_scores.  The harness
+   evaluates `iou` and `gmatrix` on the boxes of the generated scenes against
+   /repo's compute_iou and the matrix recorded from get_scores. *)
+Lemma iou_def : forall a b : box,
+  iou a b = (inter_area a b / (area a + area b - inter_area a b))%Q.
+Proof. reflexivity. Qed.
+Print Assumptions iou_def.
+
+Lemma inter_area_def : forall a b : box,
+  inter_area a b =
+  (qmax 0 (qmin (bx1 a) (bx1 b) - qmax (bx0 a) (bx0 b) + 1) *
+   qmax 0 (qmin (by1 a) (by1 b) - qmax (by0 a) (by0 b) + 1))%Q.
+Proof. reflexivity. Qed.
+Print Assumptions inter_area_def.
+
+Lemma area_def : forall b : box, area b = ((bx1 b - bx0 b + 1) * (by1 b - by0 b + 1))%Q.
+Proof. reflexivity. Qed.
+Print Assumptions area_def.
+
+Lemma gmatrix_cell_def : forall mx bs C i t, i < length bs -> t < length C ->
+  cell (gmatrix mx bs C) i t = score_cell mx (nth i bs bzero) (nth t C []).
+Proof. exact cell_gmatrix. Qed.
+Print Assumptions gmatrix_cell_def.
+
+Lemma score_cell_def : forall mx b cs,
+  score_cell mx b cs =
+  match map (iou b) cs with
+  | [] => None
+  | x :: r => Some (if mx then qmaxl x r
+                    else (qsum (x :: r) / inject_Z (Z.of_nat (length (x :: r))))%Q)
+  end.
+Proof. intros mx b cs. unfold score_cell, reduce. destruct (map (iou b) cs); reflexivity. Qed.
+Print Assumptions score_cell_def.
+
+(* the two sign facts: boxes one pixel apart on some axis have IoU 0, overlapping
+   well-formed boxes have IoU > 0 *)
+Theorem c10_iou_apart_is_zero : forall a b, apart a b -> (iou a b == 0)%Q.
+Proof. exact iou_apart. Qed.
+Print Assumptions c10_iou_apart_is_zero.
+
+Theorem c10_iou_overlap_is_positive : forall a b, wf a -> wf b -> overlap a b -> (0 < iou a b)%Q.
+Proof. exact iou_overlap_pos. Qed.
+Print Assumptions c10_iou_overlap_is_positive.
+
+Lemma separated_def : forall P : pos,
+  separated P <->
+  ((forall a b, P a b -> wf b) /\
+   (forall a b b', P a b -> P a b' -> overlap b b') /\
+   (forall a a' b b', a <> a' -> P a b -> P a' b' -> apart b b')).
+Proof.
+  intros P. split; [intros [A B C]; auto | intros (A & B & C); constructor; auto].
+Qed.
+Print Assumptions separated_def.
+
+Lemma geo_matrix_def : forall P cfg st ds M m,
+  geo_matrix P cfg st ds M m =
+  exists (bs : list box) (C : list (list box)),
+    Forall2 P (uids ds) bs /\ length C = m /\
+    (forall t, t < m -> Forall2 P (cands cfg st t) (nth t C [])) /\
+    M = gmatrix (red_max cfg) bs C.
+Proof. reflexivity. Qed.
+Print Assumptions geo_matrix_def.
+
+(* ONE CALL, any configuration (both candidate methods, both reductions): if the
+   scene's geometry P is separated (boxes of one animal overlap, boxes of two
+   animals are a pixel apart), the candidates of every track are detections of
+   its owner (`QOwn`), the matrix is get_scores(bboxes, iou) of boxes the scene
+   allows, and the own track of every detected known animal has a candidate
+   (the window clause), then the dominance premise D1-D3 HOLDS. *)
+Theorem c10_geometry_gives_dominance : forall P cfg st own ds M m,
+  separated P -> OwnInv own m ->
+  (forall t u, t < m -> In u (cands cfg st t) -> In (u, t) own) ->
+  NoDup (uids ds) ->
+  geo_matrix P cfg st ds M m ->
+  (forall a t, In a (uids ds) -> own_of own a = Some t -> cands cfg st t <> []) ->
+  dominant own ds M m = true.
+Proof. exact geo_dominant. Qed.
+Print Assumptions c10_geometry_gives_dominance.
+
+Lemma geo_hyp_def : forall P cfg x,
+  geo_hyp P cfg x =
+  (let ds := f_dets (s_frame x) in
+   nodupb (uids ds) && forallb snd ds = true /\
+   contract_step cfg (s_state x, s_frame x, s_out x) /\
+   (is_init cfg (s_state x) = false ->
+      (all_known (s_own x) ds || all_present (s_own x) ds) = true /\
+      geo_matrix P cfg (s_state x) ds (f_matrix (s_frame x)) (length (cur (s_state x))))).
+Proof. reflexivity. Qed.
+Print Assumptions geo_hyp_def.
+
+Lemma recent_def : forall cfg tr,
+  recent cfg tr =
+  (forall pre x post, tr = pre ++ x :: post ->
+   forall a t, In a (uids (f_dets (s_frame x))) -> own_of (s_own x) a = Some t ->
+   exists y, In y (lastn (window cfg) (filter has_dets pre)) /\ In a (uids (f_dets (s_frame y)))).
+Proof. reflexivity. Qed.
+Print Assumptions recent_def.
+
+(* WHOLE HISTORIES, fixed window, both matchers, both reductions, any window >= 1:
+   identity preservation from the GEOMETRY.  No dominance premise, no premise on
+   the tracker's state: the calls' matrices are get_scores(bboxes, iou) of boxes a
+   separated scene allows (`geo_hyp`), absences are shorter than the window
+   (`recent`), a newcomer appears only while everyone is visible, the matcher
+   meets its contract.  The dominance premise of c10_identity_preserved_repaired
+   is DERIVED at every call (first conjunct). *)
+Theorem c10_geometry_identity_fixed_window : forall P cfg h, separated P ->
+  lq cfg = false -> fix_i cfg = true -> fix_ii cfg = true ->
+  red_max cfg = false \/ fix_iii cfg = true -> 1 <= window cfg ->
+  Forall (geo_hyp P cfg) (trace10 cfg init [] h) ->
+  recent cfg (trace10 cfg init [] h) ->
+  Forall (scene_hyp_repaired cfg) (trace10 cfg init [] h) /\
+  exists track_of : owners,
+    NoDup (map fst track_of) /\ NoDup (map snd track_of) /\
+    length (run cfg h) = length h /\
+    Forall (fun x => identity_step x track_of) (trace10 cfg init [] h).
+Proof.
+  intros P cfg h SP El F1 F2 F3 Hw HG HR.
+  split; [eapply geometry_scene_hyp_fw; eauto | eapply geometry_identity_fw; eauto].
+Qed.
+Print Assumptions c10_geometry_identity_fixed_window.
+
+(* the explicit scene: every animal's box centre stays within d of its home on
+   both axes, half extents between wlo and whi, homes at least S apart along some
+   axis, with  S >= 2 d + 2 whi + 1  and  d <= wlo *)
+Lemma far_apart_def : forall H S,
+  far_apart H S =
+  (forall a a', a <> a' ->
+    (fst (H a) + S <= fst (H a') \/ fst (H a') + S <= fst (H a) \/
+     snd (H a) + S <= snd (H a') \/ snd (H a') + S <= snd (H a))%Q).
+Proof. reflexivity. Qed.
+Print Assumptions far_apart_def.
+
+Lemma inhome_def : forall H d wlo whi a b, inhome H d wlo whi a b ->
+  (bx0 b + bx1 b - 2 * fst (H a) <= 2 * d /\ - (2 * d) <= bx0 b + bx1 b - 2 * fst (H a) /\
+   by0 b + by1 b - 2 * snd (H a) <= 2 * d /\ - (2 * d) <= by0 b + by1 b - 2 * snd (H a) /\
+   2 * wlo <= bx1 b - bx0 b /\ bx1 b - bx0 b <= 2 * whi /\
+   2 * wlo <= by1 b - by0 b /\ by1 b - by0 b <= 2 * whi)%Q.
+Proof. exact inhome_ineq. Qed.
+Print Assumptions inhome_def.
+
+Theorem c10_far_apart_homes_are_separated : forall H S d wlo whi,
+  (0 <= d)%Q -> (d <= wlo)%Q -> far_apart H S -> (2 * d + 2 * whi + 1 <= S)%Q ->
+  separated (inhome H d wlo whi).
+Proof. exact homes_separated. Qed.
+Print Assumptions c10_far_apart_homes_are_separated.
+
+Theorem c10_geometry_identity_homes_fixed_window : forall H S d wlo whi cfg h,
+  (0 <= d)%Q -> (d <= wlo)%Q -> far_apart H S -> (2 * d + 2 * whi + 1 <= S)%Q ->
+  lq cfg = false -> fix_i cfg = true -> fix_ii cfg = true ->
+  red_max cfg = false \/ fix_iii cfg = true -> 1 <= window cfg ->
+  Forall (geo_hyp (inhome H d wlo whi) cfg) (trace10 cfg init [] h) ->
+  recent cfg (trace10 cfg init [] h) ->
+  Forall (scene_hyp_repaired cfg) (trace10 cfg init [] h) /\
+  exists track_of : owners,
+    NoDup (map fst track_of) /\ NoDup (map snd track_of) /\
+    length (run cfg h) = length h /\
+    Forall (fun x => identity_step x track_of) (trace10 cfg init [] h).
+Proof. exact geometry_identity_homes_fw. Qed.
+Print Assumptions c10_geometry_identity_homes_fixed_window.
+
+(* non-vacuity: three animals with homes (0,0), (100,0), (0,100), d = 4, half
+   extents in [8,10], S = 100 >= 8 + 20 + 1; fixed window 2, greedy, mean.  Animal
+   2 is listed first from the 2nd call on and absent at the 3rd call (shorter than
+   the window); animal 3 arrives at the 5th call while 1 and 2 are visible.  ALL
+   premises of the theorem above are proved, and the run is shown. *)
+Example ex_geometry_three_animals :
+  (0 <= 4)%Q /\ (4 <= 8)%Q /\ far_apart exH 100 /\ (2 * 4 + 2 * 10 + 1 <= 100)%Q /\
+  Forall (geo_hyp (inhome exH 4 8 10) cfgE) (trace10 cfgE init [] hE) /\
+  recent cfgE (trace10 cfgE init [] hE) /\
+  run cfgE hE =
+    [Ok [(1, Some 0); (2, Some 1)]; Ok [(2, Some 1); (1, Some 0)]; Ok [(1, Some 0)];
+     Ok [(2, Some 1); (1, Some 0)]; Ok [(3, Some 2); (1, Some 0); (2, Some 1)]].
+Proof.
+  split; [discriminate|]. split; [discriminate|]. split; [exact exE_far|].
+  split; [discriminate|]. split; [exact exE_geo|]. split; [exact exE_recent | exact exE_run].
+Qed.
+
+(* the box-level premise in the form the harness EVALUATES inside Coq on the boxes of
+   every recorded call of the bboxes+iou scenes (`geo_premb bs C tr`: every detection box
+   is well-formed, overlaps every candidate box of its own track `tr[i]` and is one pixel
+   apart from every candidate box of the other tracks): every row whose own track has a
+   candidate is dominant (D1-D3) in the Coq score matrix — which the harness compares
+   with the matrix recorded from Tracker.get_scores. *)
+Lemma geo_premb_def : forall bs C tr,
+  geo_premb bs C tr =
+  forallb (fun bt =>
+    forallb (fun tc =>
+      forallb (fun c => wfb c && wfb (fst bt) &&
+                 (if match snd bt with Some t => t =? fst tc | None => false end
+                  then overlapb (fst bt) c else apartb (fst bt) c)) (snd tc))
+      (combine (seq 0 (length C)) C))
+    (combine bs tr).
+Proof. reflexivity. Qed.
+Print Assumptions geo_premb_def.
+
+Theorem c10_box_premise_gives_row_dominance : forall mx bs C tr i t,
+  geo_premb bs C tr = true -> length tr = length bs ->
+  nth_error tr i = Some (Some t) -> t < length C -> nth t C [] <> [] ->
+  (forall j, j <> i -> nth_error tr j <> Some (Some t)) ->
+  row_dominant (gmatrix mx bs C) (length bs) (length C) i t = true.
+Proof. exact geo_premb_row_dominant. Qed.
+Print Assumptions c10_box_premise_gives_row_dominance.
+
+Example ex_box_premise :
+  geo_premb [p2d; p1d] [[p1b; p1c]; [p2b]] [Some 1; Some 0] = true /\
+  row_dominant (gmatrix false [p2d; p1d] [[p1b; p1c]; [p2b]]) 2 2 0 1 = true.
+Proof. vm_compute. auto. Qed.
+
+(* --- BOTH candidate methods ---------------------------------------------- *)
+
+(* local queues: the candidates of a track are detections of its owner (`LQOwn`) — an
+   invariant of every in-class call (with the outputs' identity), like the ghost log of
+   the fixed window; and a current track never loses its candidates, so no clause on
+   absences is needed (`lq cfg = true \/ recent ...`). *)
+Lemma LQOwn_def : forall st own,
+  LQOwn st own = (forall t u, In u (lq_get (lqq st) t) -> In (u, t) own).
+Proof. reflexivity. Qed.
+Print Assumptions LQOwn_def.
+
+Theorem c10_local_queue_candidates_stay_with_owner : forall cfg st own own' f m,
+  lq cfg = true -> fix_ii cfg = true -> cur st = seq 0 m ->
+  LQOwn st own -> incl own own' ->
+  (forall out, snd (step cfg st f) = Ok out -> forall u t, In (u, Some t) out -> In (u, t) own') ->
+  LQOwn (fst (step cfg st f)) own'.
+Proof. exact lq_step_qown. Qed.
+Print Assumptions c10_local_queue_candidates_stay_with_owner.
+
+(* WHOLE HISTORIES, EVERY candidate method, both matchers, both reductions, any window:
+   identity preservation from the GEOMETRY (bboxes + iou).  The dominance premise is
+   derived at every call (first conjunct). *)
+Theorem c10_geometry_identity_any_method : forall P cfg h, separated P ->
+  fix_i cfg = true -> fix_ii cfg = true ->
+  red_max cfg = false \/ fix_iii cfg = true -> 1 <= window cfg ->
+  Forall (geo_hyp P cfg) (trace10 cfg init [] h) ->
+  lq cfg = true \/ recent cfg (trace10 cfg init [] h) ->
+  Forall (scene_hyp_repaired cfg) (trace10 cfg init [] h) /\
+  exists track_of : owners,
+    NoDup (map fst track_of) /\ NoDup (map snd track_of) /\
+    length (run cfg h) = length h /\
+    Forall (fun x => identity_step x track_of) (trace10 cfg init [] h).
+Proof. exact geometry_identity_any. Qed.
+Print Assumptions c10_geometry_identity_any_method.
+
+(* ... for the explicit scene: within d of the home, homes S apart, S >= 2 d + 2 whi + 1, d <= wlo *)
+Theorem c10_geometry_identity_homes_any_method : forall H S d wlo whi cfg h,
+  (0 <= d)%Q -> (d <= wlo)%Q -> far_apart H S -> (2 * d + 2 * whi + 1 <= S)%Q ->
+  fix_i cfg = true -> fix_ii cfg = true ->
+  red_max cfg = false \/ fix_iii cfg = true -> 1 <= window cfg ->
+  Forall (geo_hyp (inhome H d wlo whi) cfg) (trace10 cfg init [] h) ->
+  lq cfg = true \/ recent cfg (trace10 cfg init [] h) ->
+  Forall (scene_hyp_repaired cfg) (trace10 cfg init [] h) /\
+  exists track_of : owners,
+    NoDup (map fst track_of) /\ NoDup (map snd track_of) /\
+    length (run cfg h) = length h /\
+    Forall (fun x => identity_step x track_of) (trace10 cfg init [] h).
+Proof.
+  intros H S d wlo whi cfg h D0 Dw FA HS. apply geometry_identity_any.
+  exact (homes_separated H S d wlo whi D0 Dw FA HS).
+Qed.
+Print Assumptions c10_geometry_identity_homes_any_method.
+
+(* non-vacuity for local queues (window 2, greedy, mean): the three-animal scene above;
+   track 1 keeps two candidates through animal 2's absence *)
+Example ex_geometry_three_animals_local_queues :
+  lq cfgL = true /\ far_apart exH 100 /\
+  Forall (geo_hyp (inhome exH 4 8 10) cfgL) (trace10 cfgL init [] hL) /\
+  run cfgL hL =
+    [Ok [(1, Some 0); (2, Some 1)]; Ok [(2, Some 1); (1, Some 0)]; Ok [(1, Some 0)];
+     Ok [(2, Some 1); (1, Some 0)]; Ok [(3, Some 2); (1, Some 0); (2, Some 1)]].
+Proof.
+  split; [reflexivity|]. split; [exact exE_far|]. split; [exact exL_geo | exact exL_run].
+Qed.
+
+(* box relations used above, restated *)
+Lemma wf_def : forall b : box, wf b = ((bx0 b <= bx1 b)%Q /\ (by0 b <= by1 b)%Q).
+Proof. reflexivity. Qed.
+Print Assumptions wf_def.
+
+Lemma overlap_def : forall a b : box,
+  overlap a b = ((bx0 a <= bx1 b)%Q /\ (bx0 b <= bx1 a)%Q /\ (by0 a <= by1 b)%Q /\ (by0 b <= by1 a)%Q).
+Proof. reflexivity. Qed.
+Print Assumptions overlap_def.
+
+Lemma apart_def : forall a b : box,
+  apart a b = ((bx1 a + 1 <= bx0 b)%Q \/ (bx1 b + 1 <= bx0 a)%Q \/
+               (by1 a + 1 <= by0 b)%Q \/ (by1 b + 1 <= by0 a)%Q).
+Proof. reflexivity. Qed.
+Print Assumptions apart_def.
